@@ -175,7 +175,7 @@ def run_lit(mn, style, tier, collect=None):
     for shape in isa.ALL_SHAPES:
         for suffix in SUFFIXES:
             sfx = suffix.upper() if upper else suffix
-            big = VALUES_BIG if (shape is not None and suffix in (".b", ".w")) else []
+            big = VALUES_BIG if (shape is not None and suffix in (".b", ".w", "")) else []
             for value in ((vals + big) if shape is not None else [None]):
                 if shape is None:
                     src = f"{m}{sfx}"
